@@ -429,6 +429,15 @@ class Model:
         session.builtins["heappush"] = Builtin("heappush", self._heappush)
         session.builtins["perf_counter"] = Builtin("perf_counter", self._perf_counter)
         session.builtins["ceil"] = Builtin("ceil", self._ceil)
+        _set0 = session.builtins.get("set")
+
+        def _set(it, node, *a2, **k2):
+            if not a2 and not k2:
+                return SimSet(z3.K(self.alg.Sim, z3.BoolVal(False)))     # (used for sets of simulators only)
+            if _set0 is None:
+                raise Unsupported("set(...)")
+            return _set0.fn(it, node, *a2, **k2)
+        session.builtins["set"] = Builtin("set", _set)
 
     # ------------------------------------------------------------------ heap
     def fresh_heap(self, p, tag="h"):
@@ -690,6 +699,14 @@ class Model:
             if name == "pre_length":
                 return a.dpre(d)
             raise Unsupported(f"TieredInterval.{name}")
+        if isinstance(obj, SimSet):
+            if name in ("add", "discard"):
+                def op(it2, node2, x, obj=obj, name=name):
+                    if not (is_z3(x) and x.sort() == a.Sim):
+                        raise Unsupported("set of something other than simulators")
+                    obj.arr = z3.Store(obj.arr, x, name == "add")
+                return Builtin("set." + name, op)
+            raise Unsupported(f"set.{name}")
         if isinstance(obj, OutputsH):
             if name == "items":
                 return Builtin("outputs.items", lambda it2, node2, obj=obj: OutItems(obj.sim))
@@ -865,6 +882,11 @@ class Model:
                           for q in v.parts]) if v.parts else False
         if isinstance(v, SimType):
             return True
+        if isinstance(v, SimSet):
+            return a.exists_sims(lambda k: v.arr[k])
+        if isinstance(v, DictH):
+            dom = {"TA": self.TAd, "ID": self.IDd, "SU": self.SUd, "SW": self.SWd}[v.kind]
+            return a.exists_sims(lambda k: dom(v.owner, k))
         if isinstance(v, OutputsH):
             k = z3.Int(f"k!o{next(_q)}")
             return z3.And(self.has_outputs(v.sim), z3.Exists([k], self.heap(it)["OUTP"][v.sim][k]))
@@ -993,6 +1015,10 @@ class Model:
         return NotImplemented
 
     def contains(self, it, container, item, node):
+        if isinstance(container, SimSet):
+            if not (is_z3(item) and item.sort() == self.alg.Sim):
+                raise Unsupported("membership of a non-simulator in a set of simulators")
+            return container.arr[item]
         if isinstance(container, DictH):
             if not (is_z3(item) and item.sort() == self.alg.Sim):
                 raise Unsupported("membership of a non-simulator in a connection table")
@@ -1675,6 +1701,8 @@ class Model:
     def havoc_value(self, it, nm, cur):
         if isinstance(cur, Bag):
             raise Unsupported(f"loop modifies a bag {nm}")
+        if isinstance(cur, SimSet):
+            return SimSet(it.p.fresh(nm, z3.ArraySort(self.alg.Sim, z3.BoolSort())))
         return NotImplemented
 
 
@@ -1718,6 +1746,13 @@ class PulledH:
 
     def __init__(self, sim):
         self.sim = sim
+
+
+class SimSet:
+    """a local set of simulators (characteristic array)"""
+
+    def __init__(self, arr):
+        self.arr = arr
 
 
 class QGen:
